@@ -17,11 +17,30 @@ Not proved here (listed explicitly):
   hypotheses under which it is true (no macro value contains `$`; no macro use is directly
   followed by another `$`), and `macros_adjacent_counterexample` / the chained-value reading
   show that neither can be dropped for the code as it is (sequential passes);
-* operand parsing of the text front end (`_parse_operands`) is covered by the differential
-  stream only (`parse_text_protosubroutine (render P) = P`).
+* Text front end — what is covered by a THEOREM and what by the differential stream only:
+  - theorem, character level: macro substitution (`macro_pass_tokenwise`, `macros_tokenwise`);
+    parsing of every SOURCE operand form `Rn`, `-5`, `LABEL`, `@a`, `@a[Rn]`, `@a[5]`,
+    `@a[Rn:Rm]`, `@a[Rn:3]`, `@a[2:Rm]`, `@a[2:3]` (`source_operand_text_roundtrip`, on C17's model
+    `Text.parseOperand` of `_parse_operand`/`parse_address`/`_parse_value`, which C17's stream ties
+    to the code); whole lines and programs in ASSEMBLED form (no labels, args, macros; register
+    indices only) by C17 `parse_print`;
+  - stream only (`parse_text_protosubroutine (render P) = P`, `asm.words`, `asm.splitbracket`,
+    `asm.macros` in checks/c03.py): the tokeniser `group_by_word` with `instr(args)` brackets,
+    `_split_instr_and_args` / `_parse_args`, label-definition lines, comments and blank lines,
+    the preamble (`NETQASM`, `APPID`, `DEFINE` with `{…}` values), templates, and the
+    composition of these steps into `parse_text_protosubroutine`.
+* `scratch_not_named` / `AgreeOutsideScratch` are relative to the registers THIS subroutine names:
+  a register that an earlier subroutine of the same application left live but that the present one
+  does not mention is a legal scratch register for `_replace_constants` (open SDK finding F42,
+  property C05: `new_register()` in an earlier flush).  That is outside C03's statement; the pass
+  lemma is already generic in the register set to avoid (`replaceConstants_preserves_reserved`), so a
+  `reserved registers` parameter of `assemble_subroutine`, once it exists, is one instantiation.
 -/
 import NetqasmVerif.Lemmas.AsmBuild
 import NetqasmVerif.Lemmas.AsmMacros
+import NetqasmVerif.Lemmas.AsmExec
+import NetqasmVerif.Lemmas.AsmTextOperand
+import NetqasmVerif.Props.TextObligations
 import NetqasmVerif.Props.AsmObligations
 namespace NQ.C03
 open NQ NQ.Asm
@@ -287,6 +306,115 @@ theorem nonvacuous_loop :
       simp only at h
       obtain ⟨rfl, h3⟩ := h
       exact ⟨s', steps_of_runN hr, h3⟩
+
+/-! ## the target is the executor model of C04
+
+`Model/Exec.lean` (`Exec.stepLoc`, the reference interpreter that C04 ties to the real `Executor`)
+is an instance of the machines above: `xMachine = ⟨stdRoles, xExec⟩` with `xExec` the executor's
+instruction semantics on evaluated operands, and `step_corr` proves for each of the 21
+instructions that a step (fault) of `xMachine` on the read-back of an executor program IS the
+step (fault of the same kind) of `Exec.stepLoc` on the concretised state `conc t` (registers
+restricted to the 4 × 16 file; memory = arrays, shared memory, unit module, used set, oracle, trace).
+Simulation mode (`hw = false`): in hardware mode `set r v` faults for `v` outside 32 bits, so a
+materialised literal would additionally have to fit (C16 rejects others when the subroutine is
+encoded). -/
+
+theorem stdLike_xMachine : StdLike xMachine := ⟨rfl, xExec_set⟩
+
+/-- **The executor model is an instance.**  For every executor program `X`, state and position:
+a step of `xMachine` on the read-back of `X` is the `Exec.stepLoc` step of `X[k]` on `conc t`
+(same successor state and program counter), and a fault is an `Exec` fault of the same kind. -/
+theorem exec_is_instance (a : Nat) (X : List Exec.Instr) (t : State XMem) (k : Nat) :
+    (∀ t' pc', step xMachine (X.map ofExec) t k = .next t' pc' →
+      ∃ x, X[k]? = some x ∧ Exec.stepLoc false a x (conc t) (k : Int) = .ok (conc t') (pc' : Int)) ∧
+    (∀ f, step xMachine (X.map ofExec) t k = .fault f →
+      ∃ x, X[k]? = some x ∧ lresKind (Exec.stepLoc false a x (conc t) (k : Int)) = some f) :=
+  step_corr a X t k
+
+section
+variable {P : List PCmd} {A : List Instr}
+
+/-- **`assemble_simulates_exec`.**  Source runs (proto program `P` under the executor's own
+instruction semantics, labels no-ops, literals evaluating to themselves) are reproduced by the
+EXECUTOR MODEL `Exec.stepLoc` running the assembled subroutine `X` (the instructions of `A` as
+`Exec.Instr`), from the image of the start position to the image of the end position, the
+states agreeing outside the scratch set. -/
+theorem assemble_simulates_exec (a : Nat) (hwf : LabelTargets xMachine P)
+    (hA : assemble Gen.vanillaRows Gen.excTable Gen.numScratch P = .ok A)
+    (X : List Exec.Instr) (hX : A.map (embed Gen.vanillaRows) = X.map ofExec)
+    {s s' t : State XMem} {i i' : Nat}
+    (hrun : Steps xMachine P (s, i) (s', i')) (hag : AgreeOutsideScratch Gen.numScratch P s t) :
+    ∃ t', XSteps a X (conc t, (tpos Gen.excTable P i : Int)) (conc t', (tpos Gen.excTable P i' : Int))
+      ∧ AgreeOutsideScratch Gen.numScratch P s' t' := by
+  obtain ⟨t', hst, hag'⟩ := assemble_simulates_run stdLike_xMachine hwf hA hrun hag
+  rw [hX] at hst
+  exact ⟨t', xsteps_of_steps a X hst, hag'⟩
+
+/-- … and a faulting source instruction makes the executor model fault with the same
+`Exec.Fault`, inside the image of that instruction. -/
+theorem assemble_simulates_exec_fault (a : Nat) (hwf : LabelTargets xMachine P)
+    (hA : assemble Gen.vanillaRows Gen.excTable Gen.numScratch P = .ok A)
+    (X : List Exec.Instr) (hX : A.map (embed Gen.vanillaRows) = X.map ofExec)
+    {s t : State XMem} {i : Nat} {f : Exec.Fault}
+    (hf : step xMachine P s i = .fault (faultCode f)) (hag : AgreeOutsideScratch Gen.numScratch P s t) :
+    ∃ (t' : State XMem) (j : Nat) (x : Exec.Instr) (l' : Exec.Loc),
+      XSteps a X (conc t, (tpos Gen.excTable P i : Int)) (conc t', (j : Int)) ∧
+      X[j]? = some x ∧ Exec.stepLoc false a x (conc t') (j : Int) = .fault l' f ∧
+      tpos Gen.excTable P i ≤ j ∧ j < tpos Gen.excTable P (i + 1) ∧
+      AgreeOutsideScratch Gen.numScratch P s t' := by
+  obtain ⟨t', j, hst, hfj, hlo, hhi, hag'⟩ := assemble_simulates_fault stdLike_xMachine hwf hA hf hag
+  rw [hX] at hst hfj
+  obtain ⟨x, hx, hk⟩ := (step_corr a X t' j).2 _ hfj
+  cases hl : Exec.stepLoc false a x (conc t') (j : Int) with
+  | ok l pc => simp [hl, lresKind] at hk
+  | fault l' g =>
+    simp only [hl, lresKind, Option.some.injEq] at hk
+    have := faultCode_inj hk
+    subst this
+    exact ⟨t', j, x, l', xsteps_of_steps a X hst, hx, hl, hlo, hhi, hag'⟩
+
+end
+
+/-- non-vacuity of `hX`: the assembled loop program, read as executor instructions -/
+def loopX : List Exec.Instr :=
+  [.set ⟨0, 0⟩ 0, .set ⟨0, 1⟩ 1, .add ⟨0, 0⟩ ⟨0, 0⟩ ⟨0, 1⟩, .set ⟨0, 1⟩ 3, .blt ⟨0, 0⟩ ⟨0, 1⟩ 1]
+
+theorem nonvacuous_exec :
+    (assemble Gen.vanillaRows Gen.excTable Gen.numScratch loopProg).toOption.map
+      (fun A => A.map (embed Gen.vanillaRows)) = some (loopX.map ofExec) := by decide +kernel
+
+/-! ## text level: source operands -/
+
+/-- **`source_operand_text_roundtrip`.**  With the symbols of the live module (`Gen.syms`), the text
+of every proto operand form — including integer literals as array index or slice bound, which
+printed instructions never contain — is read back by the operand parser as that operand.
+(`pOpOk`: the register bank exists; a label is a variable name that is not itself a number or a
+register name — `R1:` as a label IS read as register `R1` by the code.) -/
+theorem source_operand_text_roundtrip (o : POperand) (ho : Text.pOpOk Gen.syms o) :
+    Text.parseOperand Gen.syms (Text.showPOp Gen.syms o) = .ok (Text.tokOfP o) :=
+  Text.parseOperand_showPOp (Text.sok_of Gen.syms TextObl.syms_ok) o ho
+
+example : Text.pOpOk Gen.syms (.slice 2 (.reg ⟨0, 1⟩) (.lit 3)) := by
+  simp only [Text.pOpOk, Text.valOfRI, Text.valOk]; decide
+
+/-! ## registers to avoid beyond those the subroutine names (hook for F42) -/
+
+/-- `_replace_constants` with a larger set of registers to avoid (`currentRegisters P ++ reserved`):
+the same simulation, and the agreement then also covers every reserved register. -/
+theorem replaceConstants_preserves_reserved {M : Type} {mc : Machine M} {P : List PCmd} (hm : StdLike mc)
+    (reserved : List Reg) {n : Nat} {P1 : List PCmd} (hna : NoArgs P) (hwf : LabelTargets mc P)
+    (h1 : rcAll ⟨Gen.excTable, n, currentRegisters P ++ reserved⟩ P = .ok P1) {s s' t : State M} {i i' : Nat}
+    (hstep : step mc P s i = .next s' i') (hag : Agree n (currentRegisters P ++ reserved) s t) :
+    ∃ t', Steps mc P1 (t, tpos1 Gen.excTable P i) (t', tpos1 Gen.excTable P i') ∧
+      Agree n (currentRegisters P ++ reserved) s' t' :=
+  sim1_step (c := ⟨Gen.excTable, n, currentRegisters P ++ reserved⟩) (setOk_of_stdLike hm) (excCovers_sound hm)
+    hna hwf (fun _ hr => List.mem_append_left _ (currentRegisters_covers hr)) h1 hstep hag
+
+/-- a reserved register is never a scratch register of that pass -/
+theorem reserved_not_scratch {P : List PCmd} {reserved : List Reg} {n : Nat} {r : Reg}
+    (h : IsScratch n (currentRegisters P ++ reserved) r) : r ∉ reserved := by
+  obtain ⟨_, _, _, h'⟩ := h
+  exact fun hr => h' (List.mem_append_right _ hr)
 
 /-! ## macros -/
 
